@@ -155,6 +155,28 @@ class Check(PropertyCheck):
                             f"context and the same call made directly under the outer context)",
                             {"kind": "default-argument", "combo": [shape, outer_k, override, cache, runs]}))
                         break
+            # the same call under two contexts that are different values but look alike (seeded change C05c:
+            # context hash taken from the JSON text) -- in one execution (both orders) and across executions
+            for i, (c1, c2) in enumerate(T.LOOKALIKE if only is None else []):
+                for order in (0, 1):
+                    for shallow in (False, True):
+                        a, b = (c1, c2) if order == 0 else (c2, c1)
+                        db = tmp / f"l{i}_{order}_{int(shallow)}.db"
+                        s = Scheduler(config=Config({"backend": {"db_uri": f"sqlite:///{db}"}}))
+                        s.load()
+                        s.logger.disabled = True
+                        try:
+                            got = s.run(T.two_contexts(a, b, shallow))
+                        except Exception as e:  # noqa: BLE001
+                            got = ("error", type(e).__name__, str(e)[:200])
+                        want = [repr(a), repr(b)]
+                        self.evaluations += 1
+                        if got != want:
+                            nb += 1
+                            self.findings.append(Finding(
+                                f"lookalike-contexts:{a!r}:{b!r}:shallow={shallow}"[:200],
+                                f"the same call under contexts k={a!r} and k={b!r} gave {got!r}, expected {want!r}",
+                                {"kind": "lookalike", "contexts": [repr(a), repr(b)], "shallow": shallow}))
         finally:
             shutil.rmtree(tmp, ignore_errors=True)
         return nb
